@@ -400,6 +400,16 @@ func main() {
 				return true
 			})
 		}
+		// package-level sync.Pool / sync.Map: shared mutable caches by construction (their Get/Put/Store are method calls, not
+		// assignments) — what comes out of them is shared between calls
+		for _, name := range pkg.Scope().Names() {
+			if v, ok := pkg.Scope().Lookup(name).(*types.Var); ok {
+				ts := types.TypeString(v.Type(), nil)
+				if strings.Contains(ts, "sync.Pool") || strings.Contains(ts, "sync.Map") {
+					found[v] = append(found[v], writer{Func: "(declaration)", Line: fset.Position(v.Pos()).Line, Kind: "shared-cache"})
+				}
+			}
+		}
 		for v, ws := range found {
 			// one entry per (func, kind)
 			seen := map[string]bool{}
